@@ -36,6 +36,10 @@ def reject_variants(doc):
             d1 = copy.deepcopy(d0)
             d1[i]["extra_first"] = [raw("Path", "Path", "{", '  "%s": 1,' % par[0], '  "nosuchsegment": 1', "}")]
             res.append(("unused_property", d1))
+            for nm, rule in (("unused_property_optional", "{optional: true}"), ("unused_property_nullable", "{nullable: true}"), ("unused_property_note", "not in the path")):
+                d1b = copy.deepcopy(d0)
+                d1b[i]["extra_first"] = [raw("Path", "Path", "{", '  "%s": 1,' % par[0], '  "nosuchsegment": 1 // %s' % rule, "}")]
+                res.append((nm, d1b))
             # the same parameter declared twice for one prefix (URL level and again in a longer URL)
             d2 = copy.deepcopy(d0)
             d2[i]["extra_first"] = [raw("Path", "Path", "{", '  "%s": 1' % par[0], "}")]
@@ -116,7 +120,7 @@ def shortcut_forms(doc):
 
 
 # variants whose fault sits in the one Path directive that reject_variants() writes at the head of a URL block
-SINGLE_SITE = ("unused_property", "nested_object", "array_body", "empty_object", "prop_object_type", "prop_array_type",
+SINGLE_SITE = ("unused_property", "unused_property_optional", "unused_property_nullable", "unused_property_note", "nested_object", "array_body", "empty_object", "prop_object_type", "prop_array_type",
                "prop_undefined_type", "prop_or_object_second", "prop_or_object_first", "prop_or_object_last_of_three", "ref_regex_type", "ref_any_type", "ref_scalar_type", "ref_array_type",
                "ref_undefined_type", "ref_chain_to_regex")
 
@@ -178,6 +182,11 @@ def main(tier):
         if t2 != text:
             cases.append(rel.case("q%d" % n, t2))
             meta["q%d" % n] = (m, t2)
+        # the declared properties carry rules and notes (optional, bounds, enum, or, nullable ...): bound all the same
+        t3 = apidoc.render(d, apidoc.Style(pathrules=0.7, pathref=0.5 if n % 2 else 0.0, rnd=random.Random(n + 7)))[0]
+        if t3 not in (text, t2):
+            cases.append(rel.case("r%d" % n, t3))
+            meta["r%d" % n] = (m, t3)
         if n % (2 if thorough else 6) == 0:
             for nm, rd in reject_variants(d):
                 rid = "x%d_%s" % (n, nm)
